@@ -1893,6 +1893,10 @@ func (bc *Blockchain) AddBlock(block *block.Block) error {
 				bc.log.Warn(fmt.Sprintf("transaction %s failed to verify: %s", tx.Hash().StringLE(), err))
 			}
 		}
+		// Conflicting transactions silently evict each other from the pool.
+		if mp.Count() != len(block.Transactions) && bc.config.VerifyTransactions {
+			return errors.New("invalid block: conflicting transactions")
+		}
 	}
 	return bc.storeBlock(block, mp)
 }
